@@ -194,6 +194,13 @@ def main():
     log.append(out.strip())
     if rc != 0:
         broken.append('extract.py (fail-closed translator): ' + out.strip()[-300:])
+    # the two property-specific translators (their own failures are reported by the plugins of C18 / C01, which
+    # regenerate again and compare): run here as well so that the build below sees the current source
+    for extra in ('alias_extract.py', 'kernel_extract.py'):
+        ep = os.path.join(C.VERIF, 'tools', extra)
+        if os.path.exists(ep):
+            rcx, outx, _ = C.run([sys.executable, ep], timeout=600)
+            log.append('%s rc=%s' % (extra, rcx))
     # 2. build
     prop_v = os.path.join('Properties', pid + '.v')
     tie_v = os.path.join('Model', 'Tie', pid + '.v')
@@ -210,7 +217,9 @@ def main():
         rc, out, secs = make([prop_v + 'o'], timeout=3000 if tier == 'quick' else 6000)
         log.append('make rc=%s (%.0fs)' % (rc, secs))
         if rc != 0:
-            errs = re.findall(r'File "\./([^"]+)", line (\d+)[^\n]*\n((?:.*\n){0,6})', out)
+            # only real errors: a 'File ..., line ...' header followed by 'Error' (not 'Warning')
+            errs = [m for m in re.findall(r'File "\./([^"]+)", line (\d+)[^\n]*\n((?:.*\n){0,6})', out)
+                    if re.match(r'\s*Error', m[2])]
             for f, ln, msg in errs[:5]:
                 nm = f
                 ths = [(m.start(), m.group(1)) for m in re.finditer(
